@@ -633,7 +633,15 @@ func main() {
 	flag.BoolVar(&cfg.Batch, "batch", false, "batch mode: -pkg is a pattern list below -repo, every function whose name starts with -entry is explored (one worker each)")
 	flag.StringVar(&cfg.InitPrefix, "init-prefix", "example.com/corpus", "batch mode: packages with this path prefix get their init interpreted")
 	flag.StringVar(&cfg.SolverLog, "solver-log", "", "write solver dialogue to this path prefix")
+	genCopy := flag.String("gen-copyast", "", "write the generated H_copyast harness cases to this file and exit")
 	flag.Parse()
+	if *genCopy != "" {
+		if err := genCopyAST(*genCopy); err != nil {
+			fmt.Fprintln(os.Stderr, err)
+			os.Exit(3)
+		}
+		return
+	}
 	cfg.OverlayDirs = overlays
 	if interp != "" {
 		cfg.Interp = strings.Split(interp, ",")
